@@ -231,7 +231,15 @@ def check_runner_fields(rep: Report, prog: Program) -> None:
                 return ("OtherException", "AbortRetryError")
             return ()
 
-        paths = engine(prog).paths(fi, raises=raises, key="c11")
+        # the two thin wrappers of `_build_outcome` that logic.py offers are read through (a runner may build its
+        # outcomes through them): the obligations below are stated on the `_build_outcome` call they make
+        eng = engine(prog)
+        inline0 = eng.inline
+        eng.inline = lambda f, inline0=inline0: bool(inline0 and inline0(f)) or f.qual.endswith((":build_success_outcome", ":build_scheduled_outcome"))
+        try:
+            paths = eng.paths(fi, raises=raises, key="c11")
+        finally:
+            eng.inline = inline0
         n_sites = 0
         for p in paths:
             invoked = None
